@@ -24,6 +24,7 @@
    Only property theorems here; lemmas are in Lemmas/C07FloatLemmas.lean. -/
 import ChibiVerif.Lemmas.C07FloatLemmas
 import ChibiVerif.Lemmas.C07FloatToy
+import ChibiVerif.Lemmas.C07FloatInt
 
 namespace ChibiVerif.Props.C07
 open ChibiVerif.Host ChibiVerif.Gen.ConstEval ChibiVerif.Spec.ConstF ChibiVerif.Spec.Fpu ChibiVerif.ConstElab
@@ -74,5 +75,26 @@ theorem C07_fold_float (O : FpOps) (hO : Sound O) (e : AExpr) (v : AVal) (h : Sp
 example : Sound Toy.ops := Toy.sound
 example : (Spec.ConstF.eval Toy.ops (.cond (.bin .lt (.un .neg (.cast (.flt .f64) (.ilit .i32 3))) (.flit .f32 0x4000_8000_0000_0000_0000#80))
     (.flit .f80 0x3fff_c000_0000_0000_0000#80) (.ilit .i32 7))).isSome = true := by decide
+
+/-- **Constness (accepted), arithmetic constant expressions**: every arithmetic constant expression that has a value — floating
+    operands included, e.g. the bound of `int a[(int)2.5 + (0.5 < 1.0)]`; operands that C11 says are not evaluated need not have
+    one — is accepted by `is_const_expr` (an array, not a VLA).  Relative to `Sound O` (the truth value of a floating condition
+    selects the operand that is looked at). -/
+theorem C07_constness_float (O : FpOps) (hO : Sound O) (e : AExpr) (v : AVal) (h : Spec.ConstF.eval O e = some v) :
+    isConstExpr .wrapping (HostFp.ofOps O) (elabA e) = .ok true :=
+  isConst_elabA O hO e v h
+
+/-- non-vacuity: as above; and the hypothesis `FpZeroExact` of `C07_constness_sound` follows from `Sound` -/
+example : (Spec.ConstF.eval Toy.ops (.bin .add (.cast (.int .i32) (.flit .f64 0x50000#80))
+    (.bin .lt (.flit .f32 0x3_0000_0000_0000#80) (.ilit .i32 1)))).isSome = true := by decide
+example : FpZeroExact (HostFp.ofOps Toy.ops) := host_zeroExact Toy.ops Toy.sound
+
+/-- **The floating Spec and elaboration extend the integer ones**: an integer constant expression of `C07_fold`
+    (Spec/ConstSpec.lean), read as an arithmetic constant expression, is elaborated to the same tree, has the same type and the
+    same value — so `C07_fold_float` restricted to integer expressions is `C07_fold` (for the hosts `HostFp.ofOps O`). -/
+theorem C07_float_extends_int (O : FpOps) (c : ChibiVerif.Spec.Const.CExpr) :
+    elabA (ofC c) = elabE c ∧ typeOf (ofC c) = .int (ChibiVerif.Spec.Const.typeOf c) ∧
+    Spec.ConstF.eval O (ofC c) = (ChibiVerif.Spec.Const.eval c).map .int :=
+  ⟨elabA_ofC c, typeOf_ofC c, eval_ofC O c⟩
 
 end ChibiVerif.Props.C07
